@@ -166,8 +166,41 @@ pub fn encode_impl(cfg: &Cfg, originals: &[Vec<u8>]) -> Option<Vec<Vec<u8>>> {
 
 /// loss patterns: which originals / recovery shards the decoder is given (>= k in total unless `short`)
 pub fn gen_received(rng: &mut Prng, k: usize, r: usize) -> (Vec<usize>, Vec<usize>, &'static str) {
-    let pat = rng.below(10);
+    let pat = rng.below(14);
+    gen_received_pat(rng, k, r, pat)
+}
+
+/// the loss pattern number `pat` (0..14)
+pub fn gen_received_pat(rng: &mut Prng, k: usize, r: usize, pat: usize) -> (Vec<usize>, Vec<usize>, &'static str) {
     match pat {
+        12 | 13 => {
+            // exactly k shards whose HIGHEST received recovery shard sits on (or next to) a power-of-two
+            // work position, in either rate's layout; everything else received lies below it
+            let rbase = if rng.chance(1, 2) { 0 } else { npow2(k) };
+            let mut tops: Vec<usize> = vec![];
+            let mut p = 1usize;
+            while p < rbase + r + 2 {
+                for t in [p.saturating_sub(1), p, p + 1] {
+                    if t >= rbase && t - rbase < r { tops.push(t - rbase); }
+                }
+                p *= 2;
+            }
+            if tops.is_empty() { tops.push(r - 1); }
+            let jtop = *rng.pick(&tops);
+            // how many recovery shards (incl. the top one); the rest of the k shards are originals
+            let nr = rng.range(1, (jtop + 1).min(k));
+            let mut rec = rng.subset(jtop, nr - 1);
+            rec.push(jtop);
+            let orig = rng.subset(k, k - nr);
+            (orig, rec, "exact-k+top-recovery-on-pow2-position")
+        }
+        10 | 11 => {
+            // the everyday case: a few originals lost, repaired from the LOWEST-numbered recovery shards
+            let m = rng.range(1, r.min(k).min(3));
+            let miss = rng.subset(k, m);
+            let orig: Vec<usize> = (0..k).filter(|i| !miss.contains(i)).collect();
+            (orig, (0..m).collect(), "few-lost+lowest-recovery")
+        }
         8 | 9 => {
             // every recovery shard given, the missing originals form one window that starts late and
             // hugs a 32/64-position word boundary of the received-bitmap (in either rate's layout)
